@@ -46,6 +46,13 @@ TARGETS = [
     ("b_revert_to", "cstree/src/green/builder.rs", "GreenNodeBuilder", None, "revert_to"),
     ("b_start_node_at", "cstree/src/green/builder.rs", "GreenNodeBuilder", None, "start_node_at"),
     ("b_finish", "cstree/src/green/builder.rs", "GreenNodeBuilder", None, "finish"),
+    ("rt_text", "cstree/src/syntax/resolved.rs", "ResolvedToken", None, "text"),
+    ("gt_kind", "cstree/src/green/token.rs", "GreenToken", None, "kind"),
+    ("gt_text", "cstree/src/green/token.rs", "GreenToken", None, "text"),
+    ("gt_text_len", "cstree/src/green/token.rs", "GreenToken", None, "text_len"),
+    ("gt_text_key", "cstree/src/green/token.rs", "GreenToken", None, "text_key"),
+    ("tok_static_text", "cstree/src/syntax/token.rs", "SyntaxToken", None, "static_text"),
+    ("tok_text_key", "cstree/src/syntax/token.rs", "SyntaxToken", None, "text_key"),
     ("i_get_or_intern", "cstree/src/interning/traits.rs", "Interner", "trait", "get_or_intern"),
     ("i_resolve", "cstree/src/interning/traits.rs", "Resolver", "trait", "resolve"),
     ("i_fwd_get_or_intern", "cstree/src/interning/traits.rs", "I", "Interner", "get_or_intern"),
@@ -59,7 +66,7 @@ class Unsupported(Exception):
 
 # ------------------------------------------------------------------------------------------------ tokenizer
 
-PUNCT = ["..=", "...", "<<=", ">>=", "::", "->", "=>", "==", "!=", "<=", ">=", "&&", "||", "..", "+=", "-=", "*=", "/=", "|=", "&=", "^=", "<<", ">>"]
+PUNCT = ["..=", "...", "::", "->", "=>", "==", "!=", "<=", ">=", "&&", "||", "..", "+=", "-=", "*=", "/=", "|=", "&=", "^="]   # no `<<` / `>>`: they close generics far more often than they shift
 
 
 def tokenize(src):
